@@ -145,6 +145,8 @@ pub struct Conn {
     pub tx_datagrams: u64,
     pub last_timeout_serviced: Option<Ns>,
     pub same_instant_timeouts: u32,
+    pub connected_at: Option<Ns>,
+    pub hs_data_at: Option<Ns>,
 }
 
 #[derive(Clone, Debug)]
@@ -261,6 +263,8 @@ pub struct World {
     pub step_dgram: u32,
     /// reset-key seed per node (so that oracles can recompute stateless reset tokens)
     pub reset_key_seeds: BTreeMap<u32, u64>,
+    /// largest one-way delay any datagram experienced so far
+    pub max_owd: Ns,
 }
 
 #[derive(Clone, Debug)]
@@ -337,6 +341,7 @@ impl World {
             step_events: Vec::new(),
             step_dgram: u32::MAX,
             reset_key_seeds: BTreeMap::new(),
+            max_owd: 0,
         }
     }
 
@@ -467,6 +472,8 @@ impl World {
             tx_datagrams: 0,
             last_timeout_serviced: None,
             same_instant_timeouts: 0,
+            connected_at: None,
+            hs_data_at: None,
         });
         self.touch(inc);
         self.logf(|| format!("node{} connect -> inc{} ch{}", node, inc, ch.0));
@@ -781,6 +788,7 @@ impl World {
             return;
         }
         self.dgrams[id as usize].fate = Fate::Delivered;
+        self.max_owd = self.max_owd.max(self.now.saturating_sub(self.dgrams[id as usize].sent_at));
         {
             let sent_at = self.dgrams[id as usize].sent_at;
             let last = self.last_delivered_sent_at.entry(node).or_insert(0);
@@ -884,6 +892,8 @@ impl World {
                             tx_datagrams: 0,
                             last_timeout_serviced: None,
                             same_instant_timeouts: 0,
+                            connected_at: None,
+                            hs_data_at: None,
                         });
                         if peer != NO_INC && (peer as usize) < self.conns.len() && self.conns[peer as usize].peer == NO_INC && self.dgrams[dgram as usize].genuine {
                             self.conns[peer as usize].peer = inc;
@@ -1053,6 +1063,12 @@ impl World {
                     self.conns[inc as usize].lost.push(reason.clone());
                 }
                 self.step_events.push((inc, event_kind(&e)));
+                if matches!(e, Event::Connected) {
+                    self.conns[inc as usize].connected_at = Some(self.now);
+                }
+                if matches!(e, Event::HandshakeDataReady) {
+                    self.conns[inc as usize].hs_data_at = Some(self.now);
+                }
                 self.logf(|| format!("inc{} event {:?}", inc, e));
                 scen.on_event(self, inc, e);
             }
